@@ -120,7 +120,7 @@ func (e *GExpr) canon() string {
 	case "exists":
 		return "exists(" + e.Sub.canon() + ")"
 	case "notexists":
-		return "notexists(" + e.Sub.canon() + ")"
+		return "not(exists(" + e.Sub.canon() + "))"
 	case "subq":
 		return "subq(" + e.Sub.canon() + ")"
 	}
